@@ -14,21 +14,22 @@ def harness_dir():
     tag = re.sub(r'[^A-Za-z0-9]+', '_', common.REPO).strip('_')
     dst = os.path.join(common.BUILD, 'kani-src-' + tag)
     os.makedirs(os.path.join(dst, 'src'), exist_ok=True)
-    for rel in ('Cargo.toml', 'Cargo.lock', 'src/lib.rs'):
+    for rel in ('Cargo.toml', 'Cargo.lock', 'src/lib.rs', 'env_model.c'):
         txt = open(os.path.join(src, rel)).read().replace('"/repo/', '"%s/' % common.REPO)
         common._write_if_changed(os.path.join(dst, rel), txt)
     return dst
 
 
-def run_kani(harness, timeout=1500, playback=False):
+def run_kani(harness, timeout=1500, playback=False, extra=()):
     d = harness_dir()
-    tdir = os.path.join(common.BUILD, 'kani' + ('' if common.REPO == '/repo' else '-' + re.sub(r'[^A-Za-z0-9]+', '_', common.REPO).strip('_')))
-    cmd = ['cargo', 'kani', '--harness', harness, '--target-dir', tdir]
+    tdir = os.path.join(common.BUILD, 'kani-nocfg' + ('' if common.REPO == '/repo' else '-' + re.sub(r'[^A-Za-z0-9]+', '_', common.REPO).strip('_')))
+    cmd = ['cargo', 'kani', '--harness', harness, '--target-dir', tdir] + list(extra)
     if playback:
         cmd += ['-Z', 'concrete-playback', '--concrete-playback=print']
     t0 = time.time()
     try:
-        p = common.run(cmd, cwd=d, timeout=timeout, check=False, env={'RUSTFLAGS': '--cfg aws_clock_bound_verif'})
+        # no hook is needed by the harnesses (and Kani 0.68 ICEs on the cfg-gated atomic shim): the production configuration is what is compiled
+        p = common.run(cmd, cwd=d, timeout=timeout, check=False)
         out = (p.stdout or '') + (p.stderr or '')
     except Exception as e:        # noqa  (timeout)
         return {'verdict': 'timeout', 'wall_s': round(time.time() - t0, 1), 'out': str(e)[-500:]}
